@@ -1,7 +1,8 @@
 (* C06/Proofs.v — lemmas behind Properties.v. *)
 From Common Require Import Bytes Blake2b.
 From Trie Require Import Nibbles Node Encode Spec.
-From C06 Require Import Model MapSem Gen.
+From TrieCodec Require Codec View Db ProofsDb.
+From C06 Require Import Model MapSem Gen Lookup Bridge.
 From Coq Require Import Arith Lia.
 Local Open Scope nat_scope.
 
@@ -72,3 +73,21 @@ Qed.
 (* what a reopened instance must return: the last value written to the key *)
 Lemma reopen_last_write ops k : reopen_get ops k = last_write ops k.
 Proof. apply map_of_last_write. Qed.
+
+(* non-vacuity of the reopen theorem: a V1 trie with a branch, an inlined leaf, a leaf referenced by
+   hash and a hashed 40-byte value; the database holding exactly what commit writes satisfies the
+   hypothesis, and the lookup finds present keys and rejects absent ones *)
+Definition demo_map : bmap :=
+  map_of [OPut k1234 (repeat (n2b 7) 40); OPut [n2b 18; n2b 53] [n2b 1]; OPut [n2b 18] v32; OPut [n2b 32] (repeat (n2b 9) 33)].
+Lemma reopen_nonvacuous :
+  match committed V1 demo_map with
+  | Some n =>
+    let d := tneeds_root blake2b_256 n in
+    View.wf_node n = true /\ has_b d (tneeds_root blake2b_256 n) = true /\ (4 <= length d)%nat
+    /\ tget (true, true) d (Codec.root_hash blake2b_256 n) k1234 = Some (repeat (n2b 7) 40)
+    /\ tget (true, true) d (Codec.root_hash blake2b_256 n) [n2b 18] = Some v32
+    /\ tget (true, true) d (Codec.root_hash blake2b_256 n) [n2b 18; n2b 54] = None
+    /\ Codec.root_hash blake2b_256 n = spec_root_bytes blake2b_256 V1 demo_map
+  | None => False
+  end.
+Proof. vm_compute. repeat split; try reflexivity; lia. Qed.
